@@ -56,7 +56,7 @@ def join_case(draw, tier):
         c["lkey"] = lk[0] if nk == 1 else tuple(lk)
         c["rkey"] = rk[0] if nk == 1 else list(rk)
     if fn not in ("join", "antijoin"):
-        c["missing"] = draw(st.sampled_from([None, None, "M"]))
+        c["missing"] = draw(st.sampled_from([None, None, "M", 0, ""]))
     if fn != "antijoin" and draw(st.integers(0, 3)) == 0:
         # either prefix alone, or both
         c["lprefix"] = draw(st.sampled_from(["l_", "", 1, None]))
@@ -143,7 +143,7 @@ def cross_case(draw, tier):
     for i in range(n):
         hdr = draw(gen.header(min_n=1, max_n=3))
         tables.append(draw(gen.table(hdr, [st.one_of(gen.keyish, st.integers(0, 3))] * len(hdr), max_rows=3, ragged=draw(st.booleans()))))
-    return {"tables": tables, "prefix": draw(st.booleans()), "missing": draw(st.sampled_from([None, "M"]))}
+    return {"tables": tables, "prefix": draw(st.booleans()), "missing": draw(st.sampled_from([None, "M", None, "M", 0, "", False]))}
 
 
 def check_cross(case, ctx):
